@@ -483,6 +483,9 @@ func (api *API) mapDecodeSlice(ctx context.Context, mapVal any, value reflect.Va
 	}
 
 	refVal := reflect.ValueOf(mapVal)
+	if refVal.Kind() != reflect.Slice && refVal.Kind() != reflect.Array {
+		return ierrors.Errorf("non array value in map when decoding a slice, got %T instead", mapVal)
+	}
 	for i := range refVal.Len() {
 		elemValue := reflect.New(valueType.Elem()).Elem()
 		if err := api.mapDecode(ctx, refVal.Index(i).Interface(), elemValue, TypeSettings{}, opts); err != nil {
